@@ -95,7 +95,8 @@ def alias_oids(rng):
 
 def build(rec, issuer_rec, foreign_priv):
     """DER of one certificate record issued by issuer_rec (or self-signed when issuer_rec is rec)."""
-    issuer_cn = issuer_rec['cn'] if rec['issuer_name'] == 'match' else 'nobody-' + rec['cn']
+    issuer_cn = {'match': issuer_rec['cn'], 'mismatch': 'nobody-' + rec['cn'], 'mismatch-shorter': issuer_rec['cn'][:-1],
+                 'mismatch-longer': issuer_rec['cn'] + 'x', 'mismatch-case': issuer_rec['cn'].upper()}[rec['issuer_name']]
     signer = issuer_rec['priv'] if rec['sig'] != 'foreign' else foreign_priv
     return X.make_cert(rec['cn'], R.pub(rec['priv']), issuer_cn, signer, not_before=rec['nb'], not_after=rec['na'],
                        exts=exts_of(rec) or None, version=rec['version'], corrupt_sig=rec['sig'] == 'corrupt',
@@ -226,7 +227,8 @@ def mutate(rec, d, pos, n_inter, rng):
     elif d == 'sig-foreign':
         rec['sig'] = 'foreign'
     elif d == 'issuer-mismatch':
-        rec['issuer_name'] = 'mismatch'
+        # unrelated name, or a name that differs from the issuer's subject only at the end / in length / in letter case
+        rec['issuer_name'] = rng.choice(['mismatch', 'mismatch-shorter', 'mismatch-longer', 'mismatch-case'])
     elif d == 'unknown-ext':
         rec['unknown_ext'] = 'noncritical'
     elif d == 'unknown-critical-ext':
